@@ -35,6 +35,8 @@ TAGS = {"hdr": "header validator: ", "jwt": "JWT validator: ", "sig": "signature
 INVS = ("OnlyIfAllAccept Complete RejectShape AcceptShape SingleMutationRejected IatNeverRescues NotBeforeNbf NeverAfterExp "
         "OnlyCurrentCredentials EmptyTableRejectsAll OnlyCurrentSecret OnlyCurrentAccessKeys NoAnonymousSigner RepairedImplRefines")
 
+# the user-file part: the theorems that talk about the Basic method (the others are proved in the other parts, on other requests)
+FILE_INVS = "OnlyIfAllAccept Complete RejectShape AcceptShape OnlyCurrentCredentials EmptyTableRejectsAll RepairedImplRefines"
 
 def _consts(mode, now0, maxpresent, maxsync, full=False, maxreconf=0, maxedit=0):
     return ("CONSTANTS\n  Cfgs <- GenCfgs\n  Reqs <- GenReqs\n  Recfgs <- GenRecfgs\n  Now0 = %d\n  MaxNow = 4\n  MaxPresent = %d\n"
@@ -58,7 +60,7 @@ def etcd_cfg(spec, maxpresent, maxsync, props=True):
 
 def file_cfg(spec, maxpresent, maxedit, props=True):
     return "SPECIFICATION %s\n" % spec + _consts("file", 4, maxpresent, 0, maxedit=maxedit) + \
-           ("VIEW view\nINVARIANTS %s\nPROPERTIES AcceptedThenRevoked\n" % INVS if props else "")
+           ("VIEW view\nINVARIANTS %s\nPROPERTIES AcceptedThenRevoked\n" % FILE_INVS if props else "")
 
 
 def reconf_cfg(spec, maxpresent, maxreconf, maxsync=0, props=True):
@@ -157,6 +159,14 @@ def random_behaviours(rng, nb, per):
                 r["sg"] = sg(c, "query")
             if c["basic"] == "etcd" and rng.random() < 0.25:
                 beh.append({"a": "sync", "users": {u: rng.choice(["v1", "v1", "v2", "gone"]) for u in KNOWN_USERS}})
+            if c["basic"] == "file" and rng.random() < 0.3:
+                # the user file edited once or several times in a row; mostly the source then settles before the next request
+                for _ in range(rng.choice([1, 2, 2, 3])):
+                    beh.append({"a": "edit", "users": {u: rng.choice(["v1", "v1", "v2", "gone"]) for u in KNOWN_USERS}})
+                if rng.random() < 0.8:
+                    beh.append({"a": "settle"})
+                if last is not None and rng.random() < 0.6:
+                    beh.append({"a": "present", "req": last})
             if rng.random() < 0.12 and c["basic"] != "nomode":
                 # hot update: same methods, new material (the request generator above keeps using the first generation's
                 # classes, so about half of the credentials stop / start being valid)
@@ -173,6 +183,8 @@ def random_behaviours(rng, nb, per):
             beh.append({"a": "present", "req": r})
             if rng.random() < 0.3:
                 last = r
+            if c["basic"] == "file" and rng.random() < 0.3:
+                beh.append({"a": "settle"})
         behs.append(beh)
     return behs
 
@@ -260,6 +272,8 @@ def signatures(case, exp, v):
     cfg, req, now, res, users = case["cfg"], case["req"], case["now"], case["res"], case.get("users") or USERS0
     mat, gen = case.get("mat") or MAT0, case.get("gen", 0)
     hot = {"gen": "inherited"} if gen else {}     # the filter instance was built with Inherit from a running one
+    if cfg["basic"] == "file" and case.get("edits"):   # the user file has been edited since the first generation was built
+        hot["src"] = "edited-file" if case.get("settled") else "file-being-edited"
     out = []
     if case.get("panic"):
         return [({"kind": "panic", "site": case["panic"][:80]}, "Validator.Handle panicked: %s" % case["panic"][:200])]
@@ -296,7 +310,7 @@ def _impl_layer(ctx, vectors, cases):
              if v["cfg"]["basic"] != "nomode" and not _allowed(v["exp"], v["impl"]["pinned"])}
     repro, agree_p, agree_r, neither, n = set(), 0, 0, 0, 0
     for c in cases:
-        if not c.get("impl"):
+        if not c.get("impl") or not c.get("settled", True):
             continue
         n += 1
         obs = (c["res"]["acc"], c["res"]["status"])
@@ -328,6 +342,7 @@ def _vacuity(ctx, cases):
             return "method %s: %d must-accept / %d must-reject cases executed" % (m, na, nr)
     nm = sum(1 for c in cases if c["mutations"])
     last, flips, revoked, readmit, empty = {}, 0, 0, 0, 0
+    fe = {"revoked": 0, "revoked_burst": 0, "readmit": 0, "readmit_burst": 0, "unsettled_bad": 0, "unsettled_free": 0}
     rot = {"jwt": 0, "sig": 0, "basic": 0, "readmit": 0, "same": 0}
     for c in pred:
         k = (c["beh"], c["rep"], jdump(c["req"]))
@@ -337,11 +352,19 @@ def _vacuity(ctx, cases):
             if c["users"] != was[2] and c["gen"] == was[3]:
                 revoked += 1
                 empty += all(v == "gone" for v in c["users"].values())
+                if c["cfg"]["basic"] == "file" and c.get("settled"):
+                    fe["revoked"] += 1
+                    fe["revoked_burst"] += c.get("lastBurst", 0) >= 2
             if c["gen"] > was[3]:      # accepted by an earlier generation, must be rejected by this one: by which method
                 for m in ("jwt", "sig", "basic"):
                     rot[m] += c["v"][m] == "bad"
         if was and was[0] == "reject" and c["exp"] == "accept" and c["users"] != was[2] and c["gen"] == was[3]:
             readmit += 1
+            if c["cfg"]["basic"] == "file" and c.get("settled"):
+                fe["readmit"] += 1
+                fe["readmit_burst"] += c.get("lastBurst", 0) >= 2
+        if c["cfg"]["basic"] == "file" and not c.get("settled", True):
+            fe["unsettled_bad" if c["v"]["basic"] == "bad" else "unsettled_free"] += 1
         if was and c["gen"] > was[3] and c["exp"] == "accept":
             rot["readmit" if was[0] == "reject" else "same"] += 1
         last[k] = (c["exp"], c["now"], c["users"], c["gen"])
@@ -349,6 +372,12 @@ def _vacuity(ctx, cases):
             "snapshot (%d: empty table), %d admitted after a snapshot" % (nm, flips, revoked, empty, readmit))
     ctx.log("coverage (predicted), hot updates: accepted by one generation then to be rejected by the next: jwt %(jwt)d, signature %(sig)d, "
             "basic %(basic)d; rejected then to be admitted: %(readmit)d; admitted before and after: %(same)d" % rot)
+    ctx.log("coverage (predicted), user file: accepted then revoked by edits and settled: %(revoked)d (%(revoked_burst)d after two or more edits in a "
+            "row); rejected then admitted: %(readmit)d (%(readmit_burst)d); presented while the file was being edited: %(unsettled_bad)d must-reject, "
+            "%(unsettled_free)d open" % fe)
+    ctx.cov["user_file_edits"] = fe
+    if ctx.phase("file") and (fe["revoked_burst"] < 5 or fe["readmit_burst"] < 3 or fe["revoked"] - fe["revoked_burst"] < 2):
+        return "user file: %s" % jdump(fe)
     if ctx.phase("reconf") and (min(rot["jwt"], rot["sig"], rot["basic"]) < 5 or rot["readmit"] < 5 or rot["same"] < 5):
         return "hot updates: %s" % jdump(rot)
     nk = sum(1 for c in pred if c["req"]["sg"]["p"] and c["req"]["sg"]["key"] in ("noid", "noidsecret", "id0nosecret") and c["cfg"]["sig"]["on"])
@@ -381,6 +410,9 @@ def run(ctx):
                         "JWT clock through jwt.TimeFunc; the signature TTL uses time.Now() in the code: signing times are chosen >= 20 minutes "
                         "away from the 10 minute TTL boundary, presign expiry >= 1 minute away",
                         "OAuth2 (remote introspection) is outside the property",
+                        "FILE mode: 'the bounded time' after which only the current content of the user file counts is decided by the harness: a probe "
+                        "user written as the last line by the last edit is admitted by the BasicAuthValidator, or 10 s have passed (20 s in the "
+                        "fresh-world re-check); edits keep the inode (truncate / append / chunked writes), as htpasswd(1) does",
                         "a hot update is one atomic step for requests (the pipeline swaps the generation); the harness builds the new generation "
                         "with kind.CreateInstance + Inherit(running one) and then closes the old one, as pipeline.reload does",
                         "outcomes the property leaves open (token exactly at exp, cookie and bearer token disagreeing, multi-valued ruled "
@@ -388,7 +420,7 @@ def run(ctx):
     full = not ctx.quick
     vectors, clock_behs, etcd_behs, reconf_behs, file_behs = [], [], [], [], []
 
-    # the TLC work (independent runs) in two lanes side by side
+    # the TLC work (independent runs) in four lanes side by side
     def lane_enum_clock():
         if ctx.phase("enum"):
             recs = ctx.tlc_dump("Validator_Gen", enum_cfg(full), label="enumeration of cfg x request vectors + contract theorems",
@@ -411,11 +443,13 @@ def run(ctx):
             ctx.log("clock part model checked: %d distinct states" % r.distinct)
             clock_behs.extend(ctx.tlc_simulate("Validator_Gen", clock_cfg("CSpec", 6, props=False), num=400 if ctx.quick else 1000, depth=11))
 
-    def lane_etcd_reconf():
+    def lane_etcd():
         if ctx.phase("etcd"):
             r = ctx.tlc_mc("Validator_Gen", etcd_cfg("MSpec", 2 if ctx.quick else 3, 2), label="etcd: credential snapshots, temporal theorems", timeout=1200)
             ctx.log("etcd part model checked: %d distinct states" % r.distinct)
             etcd_behs.extend(ctx.tlc_simulate("Validator_Gen", etcd_cfg("CSpec", 5, 4, props=False), num=250 if ctx.quick else 800, depth=10))
+
+    def lane_reconf():
         if ctx.phase("reconf"):
             r = ctx.tlc_mc("Validator_Gen", reconf_cfg("RSpec", 2 if ctx.quick else 3, 1, maxsync=0 if ctx.quick else 1),
                            label="reconf: hot updates (Inherit), temporal theorems", timeout=1500)
@@ -425,13 +459,13 @@ def run(ctx):
 
     def lane_file():
         if ctx.phase("file"):
-            r = ctx.tlc_mc("Validator_Gen", file_cfg("MSpec", 2, 3 if ctx.quick else 4), label="file: edits of the user file in a row, temporal theorems",
+            r = ctx.tlc_mc("Validator_Gen", file_cfg("FSpec", 2, 2 if ctx.quick else 3), label="file: edits of the user file in a row, temporal theorems",
                            timeout=1200)
             ctx.log("user-file part model checked: %d distinct states" % r.distinct)
             file_behs.extend(ctx.tlc_simulate("Validator_Gen", file_cfg("CSpec", 6, 7, props=False), num=120 if ctx.quick else 500, depth=18))
 
-    with ThreadPoolExecutor(3) as pool:
-        lanes = [pool.submit(lane_enum_clock), pool.submit(lane_etcd_reconf), pool.submit(lane_file)]
+    with ThreadPoolExecutor(4) as pool:
+        lanes = [pool.submit(f) for f in (lane_enum_clock, lane_reconf, lane_etcd, lane_file)]
     for f in lanes:
         f.result()      # re-raises (inconclusive) in the main thread
     if not ctx.phase("go"):
@@ -471,6 +505,21 @@ def run(ctx):
     if berr:
         ctx.inconclusive("C06 harness could not build a Validator for %s: %s" % (jdump(berr[0]["cfg"]), berr[0]["err"]))
     cases = [x for x in recs if x.get("k") == "case"]
+    settles = [x for x in recs if x.get("k") == "settle"]
+    if settles:
+        waited = sorted(x["us"] for x in settles if x["conv"])
+        stuck = [x for x in settles if not x["conv"]]
+        flaky = [x for x in settles if x["recheck"] == "converged"]
+        ctx.log("user file: %d settles after edits (up to %d edits in a row); the file as last written was in effect after median %.1f ms / max %.1f ms; "
+                "%d did not converge within the bounded time (re-check in a fresh world included), %d converged only in the re-check" % (
+                    len(settles), max(x["burst"] for x in settles), (waited[len(waited) // 2] if waited else 0) / 1000.0,
+                    (waited[-1] if waited else 0) / 1000.0, len(stuck), len(flaky)))
+        ctx.cov["user_file_settles"] = {"n": len(settles), "max_ms": (waited[-1] if waited else 0) / 1000.0, "stuck": len(stuck), "recheck_converged": len(flaky)}
+        if flaky:
+            ctx.notes.append("user file: %d settle(s) converged only in the fresh-world re-check (machine stalled?)" % len(flaky))
+    skipped = [x for x in recs if x.get("k") == "skipped"]
+    if skipped:
+        ctx.log("user file: %d behaviour instances cut short after %s" % (len(skipped), skipped[0]["why"]))
     ctx.log("harness ran %d cases (%d behaviours x %d instances)" % (len(cases), len(behs), reps))
     ctx.evals(len(cases))
     byline = {c["line"]: c for c in cases}
@@ -487,7 +536,7 @@ def run(ctx):
 
     def report(c, exp, v, via):
         for sig, what in signatures(c, exp, v):
-            ctx.violation(sig, what + " [%s]" % via, {k: c[k] for k in ("cfg", "mat", "gen", "history", "now", "users", "req", "res", "tag", "wire", "bodyLen",
+            ctx.violation(sig, what + " [%s]" % via, {k: c.get(k) for k in ("cfg", "mat", "gen", "history", "edits", "settled", "lastBurst", "how", "now", "users", "req", "res", "tag", "wire", "bodyLen",
                                                                        "bodySha", "chunked", "mutations", "rep", "panic", "result")} | {"predicted": exp, "v": v})
 
     # MBT: the prediction carried by the vector vs. the observation
